@@ -292,6 +292,17 @@ pairs = {
 out = {"config": sorted(base.IGNORE_FIELDS_FOR_COMPARISON)}
 for k, r2 in pairs.items():
     out[k] = [r1 == r2, r2 == r1, hash(r1) == hash(r2)]
+# an explicitly EMPTY configuration (global, and as a scope) overrides the environment default
+from flow.record import set_ignored_fields_for_comparison, ignore_fields_for_comparison
+initial = set(base.IGNORE_FIELDS_FOR_COMPARISON)
+set_ignored_fields_for_comparison(set())
+out["after_set_empty"] = sorted(base.IGNORE_FIELDS_FOR_COMPARISON)
+out["strict"] = {k: (r1 == r2) for k, r2 in pairs.items()}
+set_ignored_fields_for_comparison(initial)
+with ignore_fields_for_comparison([]):
+    out["in_empty_scope"] = sorted(base.IGNORE_FIELDS_FOR_COMPARISON)
+    out["strict_scope"] = {k: (r1 == r2) for k, r2 in pairs.items()}
+out["after_scope"] = sorted(base.IGNORE_FIELDS_FOR_COMPARISON)
 print(json.dumps(out))
 """
 
@@ -332,6 +343,17 @@ def check_env(case, ctx):
                             % (case["env"], k, eq1, exp), detail="ignored" if k in ignored else "not-ignored")
         if exp and not heq:
             raise Violation("equal-but-hash-differs", "FLOW_RECORD_IGNORE=%r pair %s" % (case["env"], k), detail="env")
+    if out["after_set_empty"] or out["in_empty_scope"]:
+        raise Violation("env/empty-configuration-not-empty", "FLOW_RECORD_IGNORE=%r: after configuring NO ignored fields the "
+                        "configuration is %r (scope: %r)" % (case["env"], out["after_set_empty"], out["in_empty_scope"]))
+    for key in ("strict", "strict_scope"):
+        for k, eq in out[key].items():
+            if eq != (k == "same"):
+                raise Violation("env/empty-configuration-still-ignores", "FLOW_RECORD_IGNORE=%r, empty configuration (%s): "
+                                "records differing in %s compare %s" % (case["env"], key, k, eq))
+    if set(out["after_scope"]) != ignored:
+        raise Violation("scope-not-restored", "FLOW_RECORD_IGNORE=%r: after an empty scope the configuration is %r"
+                        % (case["env"], out["after_scope"]), detail="env")
 
 
 def parts(tier):
